@@ -29,3 +29,12 @@ for _f in ("_user_said", "_user_saying", "_user_said_something_unexpected"):
         ensures_finished=["ran == 1"],
         assigns=["user_message", "last_user_message"],
     )
+
+# the shipped self-check rail (library/self_check/input_check/flows.co): the rail finishes - which is what lets `input rails` finish and the
+# user message through - ONLY when the check allowed the input; on a rejected input every path ends in `abort` (rails exceptions on or off)
+SC = "nemoguardrails/library/self_check/input_check/flows.co"
+flow_contract(
+    SC, "self check input", version="2.x", prop="C01", globals=[],
+    ensures_finished=["truthy(allowed)"],
+    assigns=[],
+)
